@@ -131,27 +131,12 @@ Qed.
 Theorem tie_li_mt_pk i n : 0 <= i -> 0 <= n < 2 ^ 64 ->
   li_mt_pk i n = mm_leaf_index_to_mt_index_and_peak_index i n.
 Proof.
-  intros Hi Hn. unfold li_mt_pk, mm_leaf_index_to_mt_index_and_peak_index, mm_chk.
+  intros Hi Hn. unfold mm_leaf_index_to_mt_index_and_peak_index, mm_chk.
   destruct (Z.ltb_spec i n) as [Hlt|Hge].
-  - destruct (leaf_index_to_mt_index_and_peak_index_correct n i ltac:(lia) ltac:(lia)) as [Hok _].
-    rewrite Hok. f_equal.
-    unfold leaf_index_to_mt_index_and_peak_index_ok in Hok. cbv zeta in Hok.
-    repeat (apply andb_true_iff in Hok; destruct Hok as [? Hok]).
-    unfold leaf_index_to_mt_index_and_peak_index. cbv zeta. unfold ilog2 in *.
-    set (h := Z.log2 (Z.lxor i n)) in *.
-    assert (Hh : 0 <= h) by apply Z.log2_nonneg.
-    assert (Hp : 0 < 2 ^ h) by (apply p2_pos; lia).
-    assert (Hw : wrap 64 (2 ^ h) = 2 ^ h) by (apply wrap_small; lia).
-    rewrite Hw in *.
-    assert (Hm : wsub 64 (2 ^ h) 1 = 2 ^ h - 1) by (apply wsub64_small; lia).
-    rewrite Hm in *.
-    assert (Hl0 : 0 <= Z.land (2 ^ h - 1) i) by (apply Z.land_nonneg; lia).
-    unfold add_ok in *. rewrite wadd64_small by lia.
-    pose proof (count_ones_nonneg (Z.land n (2 ^ h - 1))). pose proof (count_ones_lt64 n ltac:(lia)).
-    unfold sub_ok in *.
-    rewrite (wsub32_small (count_ones n)) in * by (lits; lia).
-    rewrite wsub32_small by (lits; lia). reflexivity.
-  - rewrite (main_mt_out_of_bounds n i Hge). reflexivity.
+  - destruct (leaf_index_to_mt_index_and_peak_index_correct n i ltac:(lia) ltac:(lia)) as [Hok Hs].
+    rewrite Hok, <- Hs. symmetry. apply li_mt_pk_forest; lia.
+  - rewrite (main_mt_out_of_bounds n i Hge). unfold li_mt_pk.
+    destruct (Z.ltb_spec i n); [lia|reflexivity].
 Qed.
 
 (* ---------------------------------------------------------------- right_lineage_length_and_own_height *)
